@@ -72,6 +72,8 @@ def _gen_case(rng, tier):
     case['sched'] = gen_schedule(rng, len(wire), B)
     case['temp'] = 'mem' if rng.random() < 0.4 else 'real'
     case['via'] = 'direct' if rng.random() < 0.25 else 'wsgi'
+    if case['via'] == 'wsgi' and case.get('fault') and rng.random() < 0.4:
+        case['retry'] = True     # the handler touches the body again after the rejection
     return case
 
 
@@ -159,9 +161,16 @@ def _run_case(case):
             except Exception as e:   # noqa
                 outcome, detail = 'server-error', f'{type(e).__name__}: {e}'
     else:
-        o = body_request(wire, case['sched'], B=B, chunked=True, tempmode=case['temp'], touch=('body',))
+        o = body_request(wire, case['sched'], B=B, chunked=True, tempmode=case['temp'], touch=('body',),
+                         retry=bool(case.get('retry')))
         stream = o.stream
         log('status', o.resp.status)
+        if 'retry_body' in o.seen:
+            violation(res, 'C05:body-on-retry',
+                      f'the decoder rejected the body, but a second access of Request.body presented {len(o.seen["retry_body"])} '
+                      f'bytes as a complete body (fault {case.get("fault")})', got=hx(o.seen['retry_body'][:64]))
+        if 'retry_exc' in o.seen:
+            res['fired']['body_touched_again_after_rejection'] += 1
         if o.hang is not None:
             outcome, detail = 'hang', str(o.hang)
         elif o.resp.escaped is not None:
